@@ -213,6 +213,7 @@ class C08Mixin(object):
         t = self.table(tbl)
         pt = self.pt
         bad = []
+        held = []
         n = 0
 
         def chk(cond, what):
@@ -247,15 +248,19 @@ class C08Mixin(object):
                 chk(el[A] is iso, "%s[%d]" % (sym, A))
                 chk(t.isotope("%d-%s" % (A, sym)) is iso, "isotope(%d-%s)" % (A, sym))
                 chk(iso.element is el and iso.number == Z, "%s[%d].element" % (sym, A))
+                held.append((Z, A, 0, iso))
                 if deep:
                     chk(pickle.loads(pickle.dumps(iso, 4)) is iso, "pickle %s[%d]" % (sym, A))
                     for q in el.ions:
                         ion = iso.ion[q]
+                        held.append((Z, A, q, ion))
                         chk(iso.ion[q] is ion and ion.charge == q and ion.element is iso,
                             "%s[%d].ion[%d]" % (sym, A, q))
                         chk(pickle.loads(pickle.dumps(ion, 4)) is ion, "pickle %s[%d].ion[%d]" % (sym, A, q))
+            held.append((Z, 0, 0, el))
             for q in el.ions:
                 ion = el.ion[q]
+                held.append((Z, 0, q, ion))
                 chk(el.ion[q] is ion and ion.charge == q and ion.element is el and ion.number == Z,
                     "%s.ion[%d]" % (sym, q))
                 chk(pickle.loads(pickle.dumps(ion, 2)) is ion, "pickle %s.ion[%d]" % (sym, q))
@@ -266,6 +271,16 @@ class C08Mixin(object):
                 chk(iso.ion[q] is ii and ii.charge == q and ii.isotope == iso.isotope, "%s isoion" % sym)
                 chk(pickle.loads(pickle.dumps(ii, 4)) is ii, "pickle isoion %s" % sym)
                 chk(copy.deepcopy(ii) is ii, "deepcopy isoion %s" % sym)
+        # second pass: everything collected above is resolved again after the whole walk, so that
+        # an object that was replaced while OTHER atoms were being visited (a bounded or evicting
+        # cache) is noticed, not only one that changes between two consecutive reads
+        for Z, A, q, obj in held:
+            a = t[Z]
+            if A:
+                a = a[A]
+            if q:
+                a = a.ion[q]
+            chk(a is obj, "second pass %d/%d/%d" % (Z, A, q))
         # D and T aliases
         chk(t.D is t.H[2] and t.T is t.H[3] and t.symbol("D") is t.D and t.isotope("T") is t.T
             and t.name("deuterium") is t.D and t.name("tritium") is t.T, "D/T aliases")
